@@ -454,13 +454,16 @@ Lemma line2_some (p10 p11 d10 d11 p20 p21 d20 d21 : R) S :
   exists t, t * (d10 * d21 - d11 * d20) = (p20 - p10) * d21 - (p21 - p11) * d20 /\
             S = [p10 + t * d10; p11 + t * d11].
 Proof.
-  unfold g_intersect_2lines2D. cbv zeta. cbn [vhead2 firstn]. rewrite det2_expansion, oabs_R.
-  destruct (oltb RO (Rabs (d10 * d21 - d11 * d20)) (oQ RO 1 1000000000000)) eqn:E; [discriminate|].
+  unfold g_intersect_2lines2D. cbv zeta. cbn [vhead2 firstn]. rewrite det2_expansion.
+  match goal with |- (if ?c then _ else _) = _ -> _ => destruct c eqn:E end; [discriminate|].
   intros H. injection H as <-.
   assert (D : d10 * d21 - d11 * d20 <> 0).
-  { intros Z. rewrite Z, Rabs_R0 in E.
-    assert (oltb RO 0 (oQ RO 1 1000000000000) = true) by (apply oltb_R; unfold oQ; cbn [odiv oZ RO Rops]; lra).
-    congruence. }
+  { intros Z. rewrite Z in E.
+    cbv [g_dot vdot vsum vmul map2 fold_right oQ RO Rops omul oadd odiv oZ zero] in E. apply Rleb_false in E.
+    assert (0 <= d10 * d10 + (d11 * d11 + 0)) by nra. assert (0 <= d20 * d20 + (d21 * d21 + 0)) by nra.
+    assert (0 <= 1 / 1000000000000000000000000 * (d10 * d10 + (d11 * d11 + 0)) * (d20 * d20 + (d21 * d21 + 0))).
+    { apply Rmult_le_pos; [apply Rmult_le_pos|]; auto. lra. }
+    lra. }
   split; [exact D|].
   cbv [g_dot vdot vsum vmul vsub vadd vscale map map2 fold_right vnth List.nth neg RO Rops omul osub oadd odiv oZ zero].
   match goal with |- context [?T * d10] => exists T end. split; [|reflexivity].
@@ -567,3 +570,41 @@ Lemma rotate_2d_laws (x y a b : R) :
   rot_rotate_2d R RO (rot_rotate_2d R RO [x; y] a (cos a) (sin a)) b (cos b) (sin b)
   = rot_rotate_2d R RO [x; y] (a + b) (cos (a + b)) (sin (a + b)).
 Proof. split; [apply rot2d_isometry_angle|apply rot2d_additive]. Qed.
+
+(* ------------------------------------------------------------------ det_2x2: every accepted representation *)
+(* each column may independently be a complex number or an array: the value does not depend on the choice *)
+Definition rep2 (c : bool) (x y : R) : arg2 R := if c then ACplx x y else AVec [x; y].
+Lemma det2_representation_independent (ca cb : bool) (x1 y1 x2 y2 : R) :
+  g_det_2x2_any R RO (rep2 ca x1 y1) (rep2 cb x2 y2) = Ret (x1 * y2 - y1 * x2) /\
+  g_det_2x2 R RO [x1; y1] [x2; y2] = x1 * y2 - y1 * x2.
+Proof. destruct ca, cb; (split; [reflexivity|apply det2_expansion]). Qed.
+
+(* ------------------------------------------------------------------ solve_quadratic *)
+Definition eps14 : R := 1 / 100000000000000.
+(* every returned root is a root (outside the code's own |delta| < 1e-14 "double root" tolerance) *)
+Lemma solve_quadratic_roots (A B C x : R) :
+  In x (m_solve_quadratic R RO A B C) ->
+  A = 0 \/ eps14 <= Rabs (B * B - 4 * A * C) ->
+  A * x * x + B * x + C = 0.
+Proof.
+  unfold m_solve_quadratic. cbv zeta. cbn [oZ omul osub oadd odiv osqrt RO Rops]. rewrite oabs_R, !neg_R.
+  unfold oQ. cbn [odiv oZ RO Rops]. fold eps14.
+  destruct (oeqb RO A 0) eqn:EA.
+  - apply oeqb_R in EA. subst A. destruct (oeqb RO B 0) eqn:EB; [intros []|].
+    intros [<-|[]] _. assert (B <> 0). { intros ->. assert (oeqb RO 0 0 = true) by (apply oeqb_R; reflexivity). congruence. }
+    field. auto.
+  - assert (NA : A <> 0). { intros ->. assert (oeqb RO 0 0 = true) by (apply oeqb_R; reflexivity). congruence. }
+    set (d := B * B - 4 * A * C).
+    destruct (oltb RO d 0) eqn:E1; [intros []|].
+    destruct (oltb RO (Rabs d) eps14) eqn:E2.
+    + intros _ [H|H]; [contradiction|]. apply oltb_R in E2. lra.
+    + assert (D0 : 0 <= d). { destruct (Rle_dec 0 d); auto. exfalso. assert (oltb RO d 0 = true) by (apply oltb_R; lra). congruence. }
+      pose proof (sqrt_sqrt d D0) as SS. set (s := sqrt d) in *.
+      assert (K : forall y, 2 * A * y + B = s \/ 2 * A * y + B = - s -> A * y * y + B * y + C = 0).
+      { intros y Hy. assert (Q : 4 * A * (A * y * y + B * y + C) = (2 * A * y + B) * (2 * A * y + B) - d) by (unfold d; ring).
+        assert (Z : 4 * A * (A * y * y + B * y + C) = 0) by (destruct Hy as [Hy|Hy]; rewrite Hy in Q; lra).
+        apply Rmult_integral in Z as [Z|Z]; [lra|exact Z]. }
+      intros [<-|[<-|[]]] _; apply K; [left|right]; field; auto.
+Qed.
+Example solve_quadratic_ex : eps14 <= Rabs (0 * 0 - 4 * 1 * -1).
+Proof. unfold eps14. rewrite Rabs_right; lra. Qed.
